@@ -368,6 +368,13 @@ class Session:
                                 "screen": got[-30:], "expected": want[-30:]})
             return False
         if self.screen.cursor_above_top:
+            if self.full_height_transient_stop:
+                # same mechanism seen through the clamp counter: the clear after the extra line runs into the
+                # top of the viewport
+                self.ctx.violation("remnant-after-transient-stop-of-screen-filling-frame:%s" % self.kind,
+                                   {"config": self.cfg, "log": log, "seen_as": "cursor-up clamped at the viewport top"})
+                self.exempt = True
+                return True
             self.ctx.violation("cursor-moved-above-viewport:%s" % self.kind, {"config": self.cfg, "log": log})
             return False
         return True
